@@ -12,7 +12,7 @@
 //!     argument types with the typed accessors a user would call (`get` presence, `is_null`, `i64`, `string`,
 //!     `boolean`, `enum_name`, `list`, `object`) and logs what they yield; an accessor that refuses the value
 //!     is logged as `{k:"bad", got:<kind>}` (a value that does not match the declared type reached the resolver).
-//! At start-up the SDL of both schemas is compared (modulo the textual form of default values), so the
+//! At start-up the SDL of both schemas is compared (exact text equality, defaults included), so the
 //! derive-built family cannot silently diverge from the JSON that TLC reads.
 //!
 //! case: {id, flavour, field, args:[{name,val}], vdefs:[{name,ty,hasDefault,default}], supplied:[{name,val}]}
@@ -237,14 +237,6 @@ fn plain(v: &J) -> J {
     }
 }
 
-/// SDL with default values removed and lines sorted: the two schemas must describe the same type system.
-fn norm_sdl(s: &str) -> Vec<String> {
-    let re = regex::Regex::new(r" = (\[[^\]]*\]|\{[^}]*\}|[A-Za-z0-9_]+)").unwrap();
-    let mut v: Vec<String> = s.lines().map(|l| re.replace_all(l.trim(), " = <d>").to_string()).filter(|l| !l.is_empty() && !l.starts_with('"') && !l.starts_with("directive") && !l.starts_with("schema") && l != "query: Query" && l != "}").collect();
-    v.sort();
-    v
-}
-
 fn observe(r: Result<Response, String>, log: &LogRef) -> J {
     let calls = std::mem::take(&mut *log.0.lock().unwrap());
     match r {
@@ -266,11 +258,7 @@ fn main() {
     let st = Schema::build(Query, EmptyMutation, EmptySubscription).finish();
     let dy = dynamic_schema(&ts);
     if sdl_only { println!("{}\n-----\n{}", st.sdl(), dy.sdl()); return; }
-    let (a, b) = (norm_sdl(&st.sdl()), norm_sdl(&dy.sdl()));
-    if a != b {
-        let diff: Vec<&String> = a.iter().filter(|l| !b.contains(l)).chain(b.iter().filter(|l| !a.contains(l))).collect();
-        tool_error(&format!("static and dynamic family differ: {diff:?}"));
-    }
+    if st.sdl() != dy.sdl() { tool_error("static and dynamic family differ (compare with `c06 sdl`)"); }
     if args.len() < 4 { tool_error("usage: c06 <schema.json> <cases.ndjson> <out.ndjson>"); }
     let cases = read_ndjson(&args[2]);
     let mut out = NdWriter::create(&args[3]);
